@@ -80,6 +80,10 @@ def main(argv: Sequence[str]) -> None:
 
     LOGGER.info("Using schema file %s", os.fspath(schema_file))
     schema = json.load(schema_file.open("rb"))
+    if "$ref" not in schema:
+        # The schema file only carries `definitions`; without a root reference every
+        # document validates. A model file is a `MetaModel`.
+        schema = {**schema, "$ref": "#/definitions/MetaModel"}
 
     if args.model:
         model_files = [pathlib.Path(m) for m in args.model]
